@@ -237,6 +237,7 @@ type Gen struct {
 	heapTy    map[string]types.Type // Go type of the elements of a field heap
 	coveredSite map[ssa.Instruction]bool
 	inInit    bool
+	panicPre  string // `panics-unless` condition of the nopanic function being verified (entry state); nopanic goals are proved under it
 	unstableGlobals  map[string]bool
 	unstablePointees map[string]bool
 }
